@@ -184,6 +184,7 @@ func cmdCheck(args []string) int {
 		cfg.Seed = seed
 		if *tier == "thorough" {
 			cfg.SampleMaxLen = 70000
+			cfg.CrossSolver = true
 		}
 		if h.Tweak != nil {
 			h.Tweak(cfg, *tier)
@@ -778,6 +779,7 @@ func writeEvidence(verif string, spec *PropertySpec, rep *Report, wall float64, 
 		"cut_paths":                     rep.Cuts,
 		"known_findings_seen":           rep.Known,
 		"harnesses":                     rep.HarnessStats,
+		"second_solver":                 map[string]interface{}{"solver": "z3 5.1.0 (z3-new -in), thorough tier only", "obligations_rechecked": gCrossChecked, "disagreements": gCrossDisagree},
 		"solver":                        map[string]interface{}{"primary": "z3 4.8.12 (/usr/bin/z3 -in)", "queries": gQueries, "sat": gSat, "unsat": gUnsat, "unknown": gUnknown, "errors": gSolverErr, "solver_seconds": float64(gSolverNs) / 1e9},
 		"explanation":                   "states = paths explored; transitions = solver queries posed (feasibility + obligations); verdicts are the solver's over all values inside the stated bounds",
 	}
